@@ -84,9 +84,9 @@ GoTypes(x) == SetToSeq({<<T, k>> : T \in KeyTypes, k \in {"symmetric", "private"
 CanonKey(g) == K(g[1], g[2], Canon(g[1], Valid(g[1])), 1, DefaultId, "factory")
 TypePairs(x) ==
   LET gt == GoTypes(x)
-      n == Len(gt)
-      ck == [i \in 1..n |-> CanonKey(gt[i])]
-  IN {Case("type", <<ck[t[1]], ck[t[2]]>>) : t \in {u \in (1..n) \X (1..n) : u[1] < u[2]}}
+      \* a SET of <<index, canonical key>>: evaluated once (a function [i \in .. |-> ..] is re-evaluated at every application)
+      ck == {<<i, CanonKey(gt[i])>> : i \in 1..Len(gt)}
+  IN {Case("type", <<t[1][2], t[2][2]>>) : t \in {u \in ck \X ck : u[1][1] < u[2][1]}}
 
 TypeSeq == SetToSeq(Types)
 All == FlattenSeq([i \in 1..Len(TypeSeq) |-> SetToSeq(CasesOfType(TypeSeq[i]))])
